@@ -37,6 +37,38 @@ def input_only_check(ctx, r, v):
     ctx.count('input_only_forms_seen', len(input_only))
 
 
+def cli_main_check(ctx, v, r):
+    """the same request through `habutax solve --form ...` (argument parsing included):
+    the written solution has exactly the sections and lines of the direct solve"""
+    import os
+    from hx import cli, solve
+    if r.exc is not None or r.solution is None or v['prompt'] is not None:
+        return
+    with cli.scratch() as d:
+        path = os.path.join(d, 'in.ini')
+        with open(path, 'w') as f:
+            f.write(solve.config_to_text(solve.config_from_dict(v['inputs'])))
+        sol = os.path.join(d, 'sol.ini')
+        argv = ['solve', path, '--year', str(v['year']), '--solution', sol]
+        for fm in v['forms']:
+            argv += ['--form', fm]
+        o = cli.main_argv(argv)
+        text = open(sol).read() if os.path.exists(sol) else None
+    ctx.case()
+    ctx.count('cli_main_runs')
+    case = {'variant': v, 'cli': True}
+    if o.exc is not None or text is None:
+        ctx.violation('cli:raises', f'habutax {" ".join(argv[2:])} raised {o.exc!r} where the direct solve returned {r.verdict}', case)
+        return
+    cp = solve.solution_from_text(text)
+    got = {sec: set(cp[sec]) for sec in cp.sections() if sec != 'habutax'}
+    want = {sec: set(dd) for sec, dd in r.solution.items()}
+    if got != want:
+        extra = sorted(set(got) - set(want))
+        missing = sorted(set(want) - set(got))
+        ctx.violation('cli:solution-sections', f'{v["year"]} requested {v["forms"]} through the command line: sections not demanded {extra[:4]}, sections missing {missing[:4]}', case)
+
+
 def shard_real(ctx, k, payload):
     n, seed = payload
 
@@ -52,6 +84,8 @@ def shard_real(ctx, k, payload):
             ctx.count('real:' + l)
         ctx.count('requested:' + '+'.join(forms))
         input_only_check(ctx, r, v)
+        if data.draw(st.integers(0, 4)) == 0:
+            cli_main_check(ctx, v, r)
         if r.exc is None and r.verdict:
             fm = r.solver._field_map
             optional_absent = [n_ for n_ in fm if n_ not in r.values]
@@ -82,3 +116,5 @@ def replay(ctx, case):
     r = realcamp.run_variant(v)
     realcamp.check_variant(ctx, ['C04'], v, r)
     input_only_check(ctx, r, v)
+    if case.get('cli'):
+        cli_main_check(ctx, v, r)
